@@ -1,7 +1,10 @@
 """C19 — command-line compress then decompress restores the file byte for byte (structural clauses)."""
+import json
+import os
+
 from .. import flow, hir as H, hq, mir as M, tables as T
-from ..core import Anchor
-from ..rules import dom
+from ..core import Anchor, VERIF
+from ..rules import dom, inventory as INV
 
 CONFIGS_QUICK = ["ws"]
 CONFIGS_THOROUGH = ["ws", "release"]
@@ -20,6 +23,26 @@ ASSUMPTIONS = ["clap applies the default_value of the generated Arg when the opt
                "color_eyre converts an Err from main into a non-zero exit status"]
 
 CLI = "ruzstd_cli"
+TABLE = os.path.join(VERIF, "tables", "c19.json")
+FREEZE_CONFIGS = ["ws", "release"]
+
+# reviewed reasons for every way the CLI's own code can panic: explicit constructs, value-partial std calls and the
+# compiler-inserted run-time checks.  "before output" = cannot run after File::create, so no partial result exists.
+PANIC_REASONS = {
+    "ruzstd_cli::main|unwrap": "before output: no subcommand given — panics (exit status 101) before any file is opened",
+    "ruzstd_cli::main|expect": "before output: decompress without -o on an input path without file name — panics before any file is opened",
+    "ProgressMonitor::new|unwrap": "total: the template is a constant string that indicatif accepts",
+    "progress::fmt_duration|unwrap": "total: fmt::Write for String never fails",
+    "progress::fmt_duration|div": "arith: constant divisor 60",
+    "progress::fmt_duration|rem": "arith: constant divisor 60",
+    "progress::fmt_duration|overflow:Sub": "arith: min_portion = (whole seconds / 60) % 60 <= floor(seconds / 60) = as_min",
+    "progress::fmt_size|index": "arith: unit_index is clamped to 0..=units.len() - 1",
+    "progress::fmt_size|div": "arith: constant divisor 3",
+    "progress::fmt_size|overflow:Sub": "arith: units.len() - 1 with 6 units",
+    "progress::fmt_size|overflow:Mul": "arith: unit_index <= 5, times 10",
+    "progress::fmt_size|partial:clamp": "arith: bounds 0 <= units.len() - 1 = 5 are constants in order",
+    "Read>::read|overflow:Add": "arith: total bytes read from one file fit usize",
+}
 FC = "ruzstd::encoding::frame_compressor::FrameCompressor"
 
 
@@ -210,3 +233,69 @@ def run(ctx):
         ok = 'output_file.unwrap_or_else(|| ruzstd_cli::add_extension(&input_file, ".zst"))' in s and "input_file.file_stem()" in s
         ctx.check(ok, RP, "main::default-output-names", mb["file"], "default outputs: <input>.zst for compress, the file stem for decompress")
     ctx.guard(RP, "progress", progress)
+
+    RX = "C19.dom.index-bounded"
+
+    def indexes():
+        """every array / slice index in the CLI's own code is a value clamped (or min'ed) to the indexed thing's
+        len() - 1, or a literal below a fixed array's length — the reason the inventory gives for the bounds checks"""
+        n = 0
+        for p in sorted(_cli_fns(cli)):
+            b = cli.hir.get(p)
+            if b is None or b.get("body") is None:
+                continue
+            cf = hq.Canon(b, force=True)
+            for x, _ in H.walk(b["body"]):
+                if x.get("k") != "Index":
+                    continue
+                n += 1
+                base = cf(x["e"])
+                v = cf(x["idx"])
+                top = "(core::slice::len(%s) - 1)" % base
+                ok = (v.startswith(("core::cmp::impls::clamp(", "core::cmp::Ord::clamp(")) and v.endswith(", 0, %s)" % top)) or \
+                     (v.startswith("core::cmp::Ord::min(") and (v.endswith(", %s)" % top) or v.startswith("core::cmp::Ord::min(%s, " % top)))
+                m = None
+                if not ok and v.lstrip("-").isdigit():
+                    import re
+                    m = re.match(r"^\[.*; (\d+)\]$", x.get("base_ty") or "")
+                    ok = bool(m) and 0 <= int(v) < int(m.group(1))
+                ctx.check(ok, RX, "%s::%s#%d" % (H.short(p), H.show(x["e"])[:30], n), H.loc(b, x),
+                          "an index must be clamped to len() - 1 of what it indexes (a panic here happens while the output file is open)",
+                          observed=v[:200])
+        ctx.floor(RX, n, 2, "index sites in the CLI crate")
+    ctx.guard(RX, "indexes", indexes)
+
+    RI = "C19.inventory.panics"
+    if not os.path.exists(TABLE):
+        ctx.undecided(RI, "table", "", "tables/c19.json missing")
+        return
+    tb = json.load(open(TABLE))
+    ps = _panic_sites(ctx)
+    INV.compare_counts(ctx, RI, "way(s) to panic in the command-line tool's own code", ps, tb["panics"], ("fn", "kind"))
+    ctx.floor(RI, len(ps), 20, "panic sites in the CLI crate")
+
+
+def _cli_fns(cli):
+    # clap's derive output and tracing's callsite statics are generated code of trusted crates
+    return {p for p in set(cli.hir) | set(cli.mir) if "clap_builder::" not in p and "__CALLSITE" not in p and "::tests::" not in p}
+
+
+def _panic_sites(ctx):
+    cli = ctx.crate(CLI)
+    fns = _cli_fns(cli)
+    ps = INV.panics(cli, fns) + INV.partial_calls(cli, fns) + INV.assert_sites(cli, fns)
+    for x in ps:
+        x["fn"] = H.short(x["fn"])
+    return ps
+
+
+def freeze(ctx, cfgs):
+    out = {"panics": {}}
+    for cfg in cfgs:
+        ctx.cfg = cfg
+        for k, n in INV.count_by(_panic_sites(ctx), "fn", "kind").items():
+            r = PANIC_REASONS.get(k)
+            if r is None:
+                raise SystemExit("no reviewed reason for %s" % k)
+            out["panics"][k] = {"count": max(n, out["panics"].get(k, {"count": 0})["count"]), "reason": r}
+    return out
